@@ -18,8 +18,8 @@ package gtree
 //@   requires start: rg.scanner.pos == 0 && len(lnNodes) == 0
 //@   modifies Node.children, Node.parent, list.List.view, list.Element.backOf, rg.counter.n, rg.scanner.pos, rg.scanner.failed, rg.nodeGenerator.parser.isSharpRoot, rg.nodeGenerator.parser.spaces, rg.nodeGenerator.parser.sep, lnNodes
 //@   after generate: lnNodes := (result0 == nil && result1 == nil) ? lnNodes ++ seqof(nil) : lnNodes
-//@   after push: lnNodes := lnNodes ++ seqof(currentNode)
-//@   after dfs: lnNodes := result ? lnNodes ++ seqof(as(last(stack.nodes.view), Node)) : lnNodes
+//@   after push: lnNodes := lnNodes ++ seqof(arg0)
+//@   after dfs: lnNodes := result ? lnNodes ++ seqof(as(last(recv.nodes.view), Node)) : lnNodes
 //@   ensures lines [C17,C02]: result1 == nil ==> len(lnNodes) == len(rg.scanner.lines) && (forall j int :: {lnNodes[j]} 0 <= j && j < len(rg.scanner.lines) ==> (md.allSpace(rg.scanner.lines[j]) ==> lnNodes[j] == nil) && (!md.allSpace(rg.scanner.lines[j]) ==> lineRepr(rg.scanner.lines[j], lnNodes[j]) && (lnNodes[j].hierarchy == 1 ==> contains(result0, lnNodes[j]))))
 //@   ensures roots [C17]: result1 == nil ==> (forall k int :: {result0[k]} 0 <= k && k < len(result0) ==> result0[k] != nil && result0[k].hierarchy == 1)
 //@   ensures consumed [C17]: result1 == nil ==> rg.scanner.pos == len(rg.scanner.lines) && !rg.scanner.failed
